@@ -226,6 +226,9 @@ pub fn load(dir: &Path, tier: Tier) -> Result<Catalogue, String> {
             format!("{word}{word}"),
             up.clone(),
         ];
+        vars.push(format!("{word}é"));
+        vars.push(format!("{word}中文"));
+        vars.push(format!("é{word}"));
         if word.len() > 3 {
             let mid = word.len() / 2;
             vars.push(format!("{}q{}", &word[..mid], &word[mid + 1..]));
@@ -241,6 +244,14 @@ pub fn load(dir: &Path, tier: Tier) -> Result<Catalogue, String> {
             }
             if k < 4 && push(&mut sources, format!("w{}:{k}b", s.id), t) {
                 n_near += 1;
+            }
+            // macro keyword variants also where a macro expression may meet them
+            if !pct.is_empty() && (k < 4 || k >= 11) {
+                for (c, ctx) in [("%if 1 %", " x;"), ("%eval(5 %", ")"), ("%do i=1 %to 10 %", ";")].iter().enumerate() {
+                    if push(&mut sources, format!("w{}:{k}e{c}", s.id), format!("{}{v}{}", ctx.0, ctx.1)) {
+                        n_near += 1;
+                    }
+                }
             }
         }
     }
@@ -382,6 +393,10 @@ pub fn load(dir: &Path, tier: Tier) -> Result<Catalogue, String> {
         ("", "%local /%put a;", 400, ""),
         ("", "é ü ", 2000, ""),
         ("", "a\n", 3000, ""),
+        ("data a; input x $ y; datalines;\n", "ab 1\n", 140, ";\nrun;"),
+        ("data b; input r $char40.; cards;\n", "some longer record here 42\n", 60, ";\nproc print; run;"),
+        ("data c; input z $; datalines4;\n", "zá;ö 7\n", 120, ";;;;\nrun;"),
+        ("data d; infile datalines; input q; lines;\n", "1\n\n22\n333\n", 90, ";"),
     ]
     .iter()
     .enumerate()
@@ -484,7 +499,12 @@ fn random_slice(rng: &mut Rng, s: &str) -> (usize, usize) {
     }
 }
 
-const UNI_CHARS: &[&str] = &["é", "ü", "ж", "日", "🔥", "\u{a0}", "ß", "Ω", "\u{2028}", "ǅ"];
+// includes the first and last code point of every UTF-8 length class and characters whose
+// encoding contains the boundary continuation bytes 0x80 and 0xBF
+const UNI_CHARS: &[&str] = &[
+    "é", "ü", "ж", "日", "🔥", "\u{a0}", "ß", "Ω", "\u{2028}", "ǅ", "¿", "ÿ", "\u{80}", "\u{7ff}", "\u{800}",
+    "\u{fffd}", "\u{ffff}", "\u{10000}", "😿", "\u{10ffff}", "₿",
+];
 
 const MUT_CHARS: &[&str] = &[
     "\0", "\u{1}", "\u{1a}", "\u{7f}", "\u{b}", "\u{c}", "\u{85}", "\u{2028}", "                ",
@@ -526,7 +546,7 @@ struct Gen<'a> {
 
 const NAMES: &[&str] = &[
     "a", "b", "x1", "_v", "var", "ds", "mv", "é", "name", "i", "a_rather_long_name_17",
-    "переменная", "名前", "abcdefghijklmnopqrstuvwxyz0123456789_long", "eq", "x",
+    "переменная", "名前", "abcdefghijklmnopqrstuvwxyz0123456789_long", "eq", "x", "ÿ¿", "año",
 ];
 const MACROS: &[&str] = &[
     "m", "mac", "util", "do_it", "m2", "a_long_macro_name_over_14", "макрос", "sixteen_chars_xx",
@@ -600,7 +620,7 @@ impl Gen<'_> {
 
     fn strlit(&mut self, depth: u32) -> String {
         match self.rng.below(8) {
-            0 => "'abc'".into(),
+            0 => self.pick(&["'abc'", "'¿Qué tal?'", "'ÿ₿'", "\"\u{fffd}😿\"", "'日本語'"]).to_string(),
             1 => "'it''s'".into(),
             2 => "\"plain\"".into(),
             3 => format!("\"v=&{}.\"", self.pick(NAMES)),
